@@ -1,9 +1,10 @@
 """C05 — address pools neither leak nor miscount."""
 import verif as V
+import locks
 import poolrace
 
 PROP = "C05"
-SPEC = ["Bng.Spec.C05", "Bng.Spec.C05Epoch", "Bng.Spec.C05FreeList", "Bng.Spec.C05Cluster", "Bng.Spec.C16PppoeWhole"]
+SPEC = ["Bng.Spec.C05", "Bng.Spec.C05Epoch", "Bng.Spec.C05FreeList", "Bng.Spec.C05Cluster", "Bng.Spec.C16PppoeWhole"] + ["Bng.Spec.C05Locks"]
 MON = ["count", "total", "exhaustion", "lost"]
 # epoch (lease) allocator: Bng.LeaseSpec adds expiry/reclaimed to the pool monitor
 MON_EPOCH = ["count", "total", "exhaustion", "lost", "expiry", "reclaimed", "utilisation"]
@@ -41,14 +42,15 @@ ASSUME = [
     "each mutex-protected method is one atomic step; data races inside a critical section are not modelled",
     "bitmap theorems assume fewer than 2^64 units (GoodCfg); the complement is the recorded finding KF-bitmap-wide",
 ]
+ASSUME = ASSUME + [locks.ASSUME]
 
 # concurrent callers of pool.LocalPool: burst-heavy sequences on harnesses built with -race (lib/poolrace.py)
 RACE = poolrace.make(PROP, MON + ["leak"])
 
 
 def run(tier, seed):
-    return V.standard_check(PROP, SPEC, COMPS, LEVEL, ASSUME, tier, seed, post=RACE)
+    return V.standard_check(PROP, SPEC, COMPS, LEVEL, ASSUME, tier, seed, pre=locks.with_locks(), post=RACE)
 
 
 def replay(path):
-    return V.replay(PROP, COMPS, path, SPEC)
+    return V.replay(PROP, COMPS, path, SPEC, pre=locks.with_locks())
